@@ -332,6 +332,8 @@ func raceSites(logPrefix, srcRoot string) []string {
 	return out
 }
 
+var leakedRuns int
+
 // judge minimises, confirms and classifies the failing runs. It returns the
 // replay paths of confirmed, unlisted violations and the number of known findings hit.
 func judge(prop string, seed uint64, failures []Replay, info *prepInfo, bins map[bool]string, realDir string, known []knownFinding) ([]string, int) {
@@ -344,6 +346,13 @@ func judge(prop string, seed uint64, failures []Replay, info *prepInfo, bins map
 		return len(failures[i].Decisions.Sched) < len(failures[j].Decisions.Sched)
 	})
 	seenClass := map[string]int{}
+	leaked := 0
+	defer func() {
+		if leaked > 0 {
+			fmt.Printf("NOTE: %d failing run(s) of multi-run workers did not reproduce in a process of their own: the library keeps state outside the detector tree across calls; only the process-per-run phase is a verdict for such state\n", leaked)
+		}
+		leakedRuns = leaked
+	}()
 	var violations []string
 	knownHits := 0
 	printedKnown := map[string]bool{}
@@ -365,7 +374,17 @@ func judge(prop string, seed uint64, failures []Replay, info *prepInfo, bins map
 		}
 		// confirm in a fresh process first
 		if _, err := confirmReplay(bin, &f, f.Class, dir, realDir, false, "", 4); err != nil {
-			fatal2("failing run %s (class %s) did not reproduce in a fresh process (%v): harness nondeterminism", f.Subseed, f.Class, err)
+			if f.Isolated {
+				fatal2("failing run %s (class %s) was executed in a process of its own and still did not reproduce (%v): harness nondeterminism", f.Subseed, f.Class, err)
+			}
+			// The run failed inside a worker that had executed other runs before it and
+			// passes on its own: the library keeps state outside the detector tree that the
+			// in-process restore between runs does not know about. Such a failure may be
+			// an artefact of that restore, so it is not a verdict; the process-per-run
+			// phase (no shared state by construction) decides.
+			leaked++
+			seenClass[key]--
+			continue
 		}
 		min, tried := minimise(bin, f, dir, realDir, 90*time.Second, 220)
 		// final confirmation, with trace (and race log when applicable); fall
